@@ -497,6 +497,16 @@ func verifC20Valid(name string, variant int) *v1alpha1.DecoratorController {
 		z := int32(0)
 		dc.Spec.ResyncPeriodSeconds = &z
 	case 1:
+		// variant 2 NARROWED: its first resource rule, its first attachment rule,
+		// no customize hook - every field is either equal to variant 2's or unset,
+		// every list a prefix of variant 2's (an edit that only takes things away
+		// is a spec change like any other)
+		dc.Spec.Attachments = []v1alpha1.DecoratorControllerAttachmentRule{verifC20Attachment(verifC20ConfigMaps, "InPlace")}
+		dc.Spec.Hooks.Finalize = verifC20GoodHook("finalize")
+		dc.Spec.Resources[0].LabelSelector = &metav1.LabelSelector{MatchLabels: map[string]string{"app": "x"}}
+		s := int32(5)
+		dc.Spec.ResyncPeriodSeconds = &s
+	case 4:
 		dc.Spec.Attachments = []v1alpha1.DecoratorControllerAttachmentRule{verifC20Attachment(verifC20ConfigMaps, "Recreate")}
 	case 2:
 		dc.Spec.Resources = append(dc.Spec.Resources, verifC20Parent(verifC20Widgets))
@@ -516,7 +526,7 @@ func verifC20Valid(name string, variant int) *v1alpha1.DecoratorController {
 	return dc
 }
 
-const verifC20NumValid = 4
+const verifC20NumValid = 5
 
 // Event kinds of the reconcile harness.
 const (
